@@ -384,6 +384,12 @@ func immutableUseOK(a *fieldAccess) bool {
 
 // insideOnceDo reports whether fn is a function literal passed to (*sync.Once).Do by its parent.
 func insideOnceDo(fn *ssa.Function) bool {
+	return handedOnlyTo(fn, func(f *ssa.Function) bool { return an.ShortFunc(f) == "(*sync.Once).Do" })
+}
+
+// handedOnlyTo reports whether fn is a function literal its parent passes to a callee accepted by match, or a method
+// handed to such a callee as a method value (once.Do(w.init)) and called from nowhere else.
+func handedOnlyTo(fn *ssa.Function, match func(*ssa.Function) bool) bool {
 	if par := fn.Parent(); par != nil {
 		found := false
 		an.EachInstr(par, func(ins ssa.Instruction) {
@@ -392,7 +398,7 @@ func insideOnceDo(fn *ssa.Function) bool {
 				return
 			}
 			f := c.Call.StaticCallee()
-			if f == nil || an.ShortFunc(f) != "(*sync.Once).Do" {
+			if f == nil || !match(f) {
 				return
 			}
 			for _, a := range c.Call.Args {
@@ -403,15 +409,10 @@ func insideOnceDo(fn *ssa.Function) bool {
 		})
 		return found
 	}
-	// a method handed to Do as a method value (once.Do(w.init)) and called from nowhere else
 	if fn.Signature.Recv() == nil || fn.Prog == nil {
 		return false
 	}
-	uses, direct := 0, 0
-	for other := range onceScan(fn) {
-		_ = other
-		uses++
-	}
+	uses, direct := len(handedScan(fn, match)), 0
 	for _, site := range an.SitesOf(fn) {
 		if par := site.Parent(); par != nil && an.Unbound(par) == par {
 			direct++
@@ -420,8 +421,8 @@ func insideOnceDo(fn *ssa.Function) bool {
 	return uses > 0 && direct == 0
 }
 
-// onceScan lists the (*sync.Once).Do calls of fn's package that are handed the method value of fn.
-func onceScan(fn *ssa.Function) map[*ssa.Call]bool {
+// handedScan lists the calls of fn's package, to a callee accepted by match, that are handed the method value of fn.
+func handedScan(fn *ssa.Function, match func(*ssa.Function) bool) map[*ssa.Call]bool {
 	out := map[*ssa.Call]bool{}
 	if fn.Pkg == nil {
 		return out
@@ -431,7 +432,7 @@ func onceScan(fn *ssa.Function) map[*ssa.Call]bool {
 			for _, b := range f.Blocks {
 				for _, ins := range b.Instrs {
 					c, ok := ins.(*ssa.Call)
-					if !ok || c.Call.StaticCallee() == nil || an.ShortFunc(c.Call.StaticCallee()) != "(*sync.Once).Do" {
+					if !ok || c.Call.StaticCallee() == nil || !match(c.Call.StaticCallee()) {
 						continue
 					}
 					for _, a := range c.Call.Args {
